@@ -35,6 +35,10 @@ PIE_ALSO = {
     'C02': TRACE,
     'C08': TRACE + ('C02.bounded.executes_only_what_a_from_scratch_build_executes', 'C02.bounded.requiring_again_executes_nothing'),
     'C09': TRACE + ('C02.bounded.executed_only_if_a_dependency_is_inconsistent',),
+    # the stamp slot of an end event disagrees with what the task saw: the dependency's stamp is wrong (C09) or the event misreports it (C17)
+    'C17': ('C09.bounded.stamp_is_what_the_task_saw',),
+    'C04': ('C09.bounded.inconsistent_dependency_schedules_its_task', 'C18.bounded.failed_check_schedules_the_task'),
+    'C16': (),
 }
 GRAPH_BOUNDS = {'quick': ['graph', '--k', '3', '--l', '4', '--random', '4000', '--len', '14'],
                 'thorough': ['graph', '--k', '4', '--l', '4', '--random', '60000', '--len', '18']}
